@@ -7,8 +7,9 @@ import re
 import sys
 
 V = os.path.dirname(os.path.dirname(os.path.abspath(__file__)))
-logs = sys.argv[1:] or sorted(glob.glob(os.path.join(V, ".cache/tmp/seeded*.log"))) + [os.path.join(V, ".cache/tmp/seedq.log"),
-                                                                                     os.path.join(V, ".cache/tmp/tryq.log")]
+logs = sys.argv[1:] or [p for p in sorted(glob.glob(os.path.join(V, ".cache/tmp/seeded*.log"))) if "extra" not in p] + \
+    [os.path.join(V, ".cache/tmp/seedq.log"), os.path.join(V, ".cache/tmp/tryq.log"),
+     os.path.join(V, ".cache/tmp/seeded_extra.log")]          # re-runs after a check was strengthened come last
 res = {}          # seeded id -> {check id: (exit, nviol)}
 for lg in logs:
     if not os.path.exists(lg):
@@ -24,11 +25,16 @@ for lg in logs:
         if m:
             cursid = m.group(1)
             continue
+        if line.startswith("## benign"):
+            cursid = "benign"
+            continue
         m = re.match(r"(\S+)/(\S+\.diff) (C\d+) exit=(\d+) violations=(\d+)", line)
         if not m:
             continue
         d, f, chk, rc, nv = m.groups()
         if d == "out":
+            if cursid == "benign":
+                continue
             if cursid is not None:
                 sid = cursid
             elif cur is not None:
